@@ -455,6 +455,19 @@ def key_chain(ctx, rep, rule):
                 kinds.append("whole-outside-loop")
             else:
                 kinds.append("other:" + flow.fmt(a)[:60])
+        # the whole copies may be fed from a closure handed to an iterator consumer: repeat(password).take(n).for_each(|c| update(c))
+        for c in facts.closures_of(b.path):
+            cups = [x for x in c.calls() if (x.term["callee"].get("path") or "").endswith("Digest::update")]
+            if not cups:
+                continue
+            feed = cells.closure_feed(facts, c)
+            pc = flow.Prov(c)
+            for x in cups:
+                a = pc.operand(x.term["args"][1])
+                src = feed[3] if feed is not None and feed[0] is b else None
+                whole = src is not None and a == ("arg", 2) and src[0] == "call" and (src[1] or "").split("::")[-1] == "take" and \
+                    src[2] and src[2][0][0] == "call" and (src[2][0][1] or "") in ("std::iter::repeat", "core::iter::repeat") and src[2][0][2][0] == ("arg", 2)
+                kinds.append("whole-in-loop" if whole else "other:closure %s fed by %s" % (flow.fmt(a)[:30], flow.fmt(src)[:60] if src else "?"))
         okk = sorted(kinds) == ["prefix-rem", "whole-in-loop"]
         if okk:
             rep.ok(rule, "DigestAuth::password_to_master|expansion", "n whole copies then password[..rem]", b.loc(), obligation=True)
